@@ -102,6 +102,12 @@ func payload(r *vrand.Rand, n int) []byte {
 		}
 	} else {
 		copy(b, payloadShapes[k])
+		if n >= 7 && b[0] == 0xff && b[1]&0xf0 == 0xf0 {
+			// a complete, self-consistent ADTS header whose frame_length is the payload's length (what a careless muxer puts
+			// into an FLV AAC tag): still opaque
+			b[2], b[3] = 0x50, 0x80|byte(n>>11&3)
+			b[4], b[5], b[6] = byte(n>>3), byte(n<<5)|0x1f, 0xfc
+		}
 	}
 	atomic.AddInt64(&shapeHits[k], 1)
 	return b
@@ -182,6 +188,21 @@ func enumAudio() []aCase {
 				for _, canonical := range []bool{false, true} {
 					a := refflv.AudioBody{Format: refflv.AudioAAC, Rate: byte(asc % 4), Size: byte(asc >> 2 & 1), Channels: byte(ch), Trait: byte(tr)}
 					cs = append(cs, aCase{canonical: canonical, a: a, plen: 2 + asc%3, prefix: pre})
+				}
+			}
+		}
+	}
+	// AAC bodies whose payload begins with a self-consistent ADTS header (frame_length = payload length), every second header
+	// byte FF F0..FF FF, as sequence header and as raw frame, mono and stereo, several lengths
+	for b1 := 0xf0; b1 <= 0xff; b1++ {
+		for _, n := range []int{7, 9, 16, 64, 1000, 2047} {
+			pre := []byte{0xff, byte(b1), 0x50, 0x80 | byte(n>>11&3), byte(n >> 3), byte(n<<5) | 0x1f, 0xfc}
+			for tr := 0; tr < 2; tr++ {
+				for ch := 0; ch < 2; ch++ {
+					for _, canonical := range []bool{false, true} {
+						a := refflv.AudioBody{Format: refflv.AudioAAC, Rate: 3, Size: 1, Channels: byte(ch), Trait: byte(tr)}
+						cs = append(cs, aCase{canonical: canonical, a: a, plen: n, prefix: pre})
+					}
 				}
 			}
 		}
